@@ -657,6 +657,12 @@ func (c *evalCtx) evalBin(x *EBin) TVal {
 		if sa.S != sb.S {
 			c.errf("operands of %s have different sorts (%s vs %s) in %v", x.Op, sa.S, sb.S, x)
 		}
+	} else if tk == token.EQL || tk == token.NEQ {
+		if sa, ok := a.V.(Sc); ok {
+			if sb, ok := b.V.(Sc); ok && sa.S != sb.S {
+				c.errf("operands of %s have different sorts (%s vs %s) in %s", x.Op, sa.S, sb.S, exprText(x))
+			}
+		}
 	}
 	// spec-level division does not create obligations
 	saved, savedEq := c.ex.noSafety, c.ex.specEq
@@ -703,12 +709,16 @@ func (c *evalCtx) evalQuant(x *EQuant) TVal {
 	}
 	if len(x.Triggers) > 0 {
 		c.ex.vc.noBind++
-		var pats []string
-		for _, t := range x.Triggers {
-			pats = append(pats, n.patternTerm(t))
+		attrs := ""
+		for _, set := range append([][]Expr{x.Triggers}, x.AltTriggers...) {
+			var pats []string
+			for _, t := range set {
+				pats = append(pats, n.patternTerm(t))
+			}
+			attrs += fmt.Sprintf(" :pattern (%s)", strings.Join(pats, " "))
 		}
 		c.ex.vc.noBind--
-		body = fmt.Sprintf("(! %s :pattern (%s))", body, strings.Join(pats, " "))
+		body = fmt.Sprintf("(! %s%s)", body, attrs)
 	}
 	return boolTV(fmt.Sprintf("(%s (%s) %s)", q, strings.Join(decls, " "), body))
 }
@@ -765,6 +775,11 @@ func (c *evalCtx) evalCall(x *ECall) TVal {
 			c.errf("atlock() used where no Lock() has happened on the path")
 		}
 		return c.withState(c.st.lockSnap).eval(x.Args[0])
+	case "atiter":
+		if c.st.iterSnap == nil {
+			c.errf("atiter() used outside a backedge clause")
+		}
+		return c.withState(c.st.iterSnap).eval(x.Args[0])
 	case "strbytes":
 		lit, ok := x.Args[0].(*EStr)
 		if !ok {
@@ -870,6 +885,26 @@ func (c *evalCtx) evalCall(x *ECall) TVal {
 		nm := arg(0)
 		cur := c.ex.comp(c.st, ghostFileKey, ghostFileSort())
 		return TVal{V: Sc{sel(sel(cur, z64()), sc(nm.V).T), BV(64)}, T: types.Typ[types.Uint64]}
+	case "fileline", "filehasline":
+		// fileline(content, k): the k-th line of a byte sequence, as bufio.Scanner delivers it
+		a, k := arg(0), arg(1)
+		c.ex.vc.DeclareFun("FileLine", []Sort{BV(64), BV(64)}, SStr)
+		c.ex.vc.DeclareFun("FileHasLine", []Sort{BV(64), BV(64)}, SBool)
+		if x.Fn == "filehasline" {
+			return boolTV(app("FileHasLine", sc(a.V).T, c.idx64(k)))
+		}
+		return TVal{V: Sc{app("FileLine", sc(a.V).T, c.idx64(k)), SStr}, T: types.Typ[types.String]}
+	case "fileexists":
+		nm := arg(0)
+		return boolTV(c.ex.gfile(c.st, sc(nm.V).T).exists())
+	case "filelen":
+		nm := arg(0)
+		return TVal{V: Sc{c.ex.gfile(c.st, sc(nm.V).T).length(), BV(64)}, T: types.Typ[types.Int]}
+	case "fileappend":
+		// fileappend(content, record): content identity after appending one record
+		a, b := arg(0), arg(1)
+		c.ex.vc.DeclareFun("FileAppend", []Sort{BV(64), BV(64)}, BV(64))
+		return TVal{V: Sc{app("FileAppend", sc(a.V).T, sc(b.V).T), BV(64)}, T: types.Typ[types.Uint64]}
 	case "mapid":
 		// mapid(m): abstract identity of a map's content (domain and values)
 		m := arg(0)
@@ -970,11 +1005,19 @@ func (c *evalCtx) evalCall(x *ECall) TVal {
 		for _, a := range x.Args {
 			nv := c.eval(a)
 			ov := c.withState(c.old).eval(a)
-			c.ex.specEq = true
+			c.ex.specEq, c.ex.specBits = true, true
 			cs = append(cs, c.ex.valEq(nv.V, ov.V, nv.T))
-			c.ex.specEq = false
+			c.ex.specEq, c.ex.specBits = false, false
 		}
 		return boolTV(and(cs...))
+	case "same":
+		// same(a, b): identical values (for floats: the same value, NaN included; not IEEE ==)
+		a, b := arg(0), arg(1)
+		a, b = c.unify(a, b)
+		c.ex.specEq, c.ex.specBits = true, true
+		t := c.ex.valEq(a.V, b.V, a.T)
+		c.ex.specEq, c.ex.specBits = false, false
+		return boolTV(t)
 	case "with":
 		base := arg(0)
 		st, ok := base.T.Underlying().(*types.Struct)
@@ -1010,6 +1053,30 @@ func (c *evalCtx) evalCall(x *ECall) TVal {
 	case "TimeUnix":
 		c.ex.vc.DeclareFun("TimeUnix", []Sort{BV(64)}, BV(64))
 		return TVal{V: Sc{app("TimeUnix", sc(arg(0).V).T), BV(64)}, T: types.Typ[types.Int64]}
+	case "PIVal", "PIErr":
+		// the value / failure of strconv.ParseInt(s, 10, 64)
+		sv := arg(0)
+		c.ex.vc.DeclareFun("PIVal", []Sort{SStr, BV(64), BV(64)}, BV(64))
+		c.ex.vc.DeclareFun("PIErr", []Sort{SStr, BV(64), BV(64)}, SBool)
+		if x.Fn == "PIErr" {
+			return boolTV(app("PIErr", sc(sv.V).T, bvInt(10, 64), bvInt(64, 64)))
+		}
+		return TVal{V: Sc{app("PIVal", sc(sv.V).T, bvInt(10, 64), bvInt(64, 64)), BV(64)}, T: types.Typ[types.Int64]}
+	case "PFVal", "PFErr":
+		sv := arg(0)
+		c.ex.vc.DeclareFun("PFVal", []Sort{SStr}, SFP)
+		c.ex.vc.DeclareFun("PFErr", []Sort{SStr}, SBool)
+		if x.Fn == "PFErr" {
+			return boolTV(app("PFErr", sc(sv.V).T))
+		}
+		return TVal{V: Sc{app("PFVal", sc(sv.V).T), SFP}, T: types.Typ[types.Float64]}
+	case "fpFitsInt64":
+		// the value truncated toward zero lies in [-2^63, 2^63)
+		f := sc(arg(0).V).T
+		tr := app("fp.roundToIntegral", "RTZ", f)
+		lo := app("(_ to_fp 11 53)", "RNE", bvLit(new(big.Int).Neg(new(big.Int).Lsh(bigOne, 63)), 65))
+		hi := app("(_ to_fp 11 53)", "RNE", bvLit(new(big.Int).Lsh(bigOne, 63), 65))
+		return boolTV(and(app("fp.leq", lo, tr), app("fp.lt", tr, hi)))
 	case "fpIsNaN":
 		return boolTV(app("fp.isNaN", sc(arg(0).V).T))
 	case "fpIsInf":
